@@ -414,8 +414,17 @@ def build_sim(case):
     dn = case.get("default_names", False)
     kw["max_cycles"] = max(kw["max_cycles"], tb[0][2] + tb[1][2])
 
+    tune_after = case.get("seed", 0) % 2 == 0
+
     def add(mc, mv, name, default_name, i):
-        mc.add_move(mv, name=(default_name if dn else name), interval=tb[i][0], probability=tb[i][1], minimum_count=tb[i][2])
+        nm = default_name if dn else name
+        if tune_after:
+            # register with the defaults, then tune the entry through its MoveStorage fields (as users and the
+            # repository's own tests do)
+            mc.add_move(mv, name=nm)
+            mc.moves[nm].interval, mc.moves[nm].probability, mc.moves[nm].minimum_count = tb[i][0], tb[i][1], tb[i][2]
+        else:
+            mc.add_move(mv, name=nm, interval=tb[i][0], probability=tb[i][1], minimum_count=tb[i][2])
 
     if d == "Canonical":
         mc = canonical.Canonical(atoms, temperature=case["T"], **kw)
